@@ -127,7 +127,7 @@ func checkMain(prop, tier string, only string) int {
 		fmt.Println("no harness registered for", prop)
 		return 2
 	}
-	timeout := 20 * time.Minute
+	timeout := 12 * time.Minute // quick tier: the slowest job takes about 100 s on the unchanged tree
 	if tier == "thorough" {
 		timeout = 90 * time.Minute
 	}
